@@ -16,7 +16,7 @@ theorem tokenStart_eq {t : Token} (h : posOk t) : Token.start t = some (tokStart
   cases t <;> try rfl
   rename_i n dp
   simp only [Token.start, tokStart]
-  have : 1 ≤ dp := h
+  have : 1 ≤ dp := h.1
   rw [if_neg (by omega)]
 
 theorem contentLen_eq (t : Token) : Token.contentLen t = blen (tokText t) := by
